@@ -778,6 +778,9 @@ impl CommandExecutor for DrawExecutor {
         string_parameter: &str,
     ) -> EngineResult<CallbackAction> {
         // println!("cmd:{command:?} params:{parameters:?}");
+        // IGS numbers are 16 bit VDI values; larger ones only make the integer drawing routines overflow
+        let parameters: Vec<i32> = parameters.iter().map(|p| (*p).clamp(i16::MIN as i32, i16::MAX as i32)).collect();
+        let parameters = parameters.as_slice();
         match command {
             IgsCommands::Initialize => {
                 if parameters.len() != 1 {
